@@ -358,6 +358,28 @@ func (x *Explorer) step(st *State) {
 		case c.IsFalse():
 			x.jump(st, f, fb)
 		default:
+			// a condition that is literally on the path already does not fork
+			cs, ncs := c.String(), Not(c).String()
+			known := 0
+			for k := len(st.pc) - 1; k >= 0 && k >= len(st.pc)-200; k-- {
+				ps := st.pc[k].String()
+				if ps == cs {
+					known = 1
+					break
+				}
+				if ps == ncs {
+					known = -1
+					break
+				}
+			}
+			if known == 1 {
+				x.jump(st, f, tb)
+				return
+			}
+			if known == -1 {
+				x.jump(st, f, fb)
+				return
+			}
 			if x.eng.verbose {
 				x.forkCount[fmt.Sprintf("%s %s", f.fn.Name(), x.eng.posStr(i.Cond.Pos()))]++
 			}
